@@ -1,6 +1,6 @@
 (** C09 — Valid covariance in, valid covariance out, along any update history. *)
 From mathcomp Require Import all_ssreflect all_algebra.
-From FV Require Import Theory.Psd gen.EkfA Proofs.Ekf.
+From FV Require Import Theory.Psd Theory.Perturb gen.EkfA Proofs.Ekf.
 Set Implicit Arguments. Unset Strict Implicit. Unset Printing Implicit Defensive.
 Import Order.Theory GRing.Theory Num.Theory.
 Local Open Scope ring_scope.
@@ -10,6 +10,39 @@ Local Open Scope ring_scope.
 Theorem C09_history_valid : forall (F : realFieldType) (n : nat) (ops : seq (op F n)) (P0 : 'M[F]_n),
   valid P0 -> all_ok ops -> valid (foldl (@step F n) P0 ops).
 Proof. exact history_valid. Qed.
+
+(** the regenerated C++ templates compute the same covariances along the same history, hence valid ones *)
+Theorem C09_cpp_history_valid : forall (F : realFieldType) (n : nat) (ops : seq (op F n)) (P0 : 'M[F]_n),
+  valid P0 -> all_ok ops -> valid (foldl (@cpp_step F n) P0 ops).
+Proof. exact cpp_history_valid. Qed.
+
+Theorem C09_cpp_history_eq_py : forall (F : realFieldType) (n : nat) (ops : seq (op F n)) (P0 : 'M[F]_n),
+  foldl (@cpp_step F n) P0 ops = foldl (@step F n) P0 ops.
+Proof. exact cpp_history_eq_py. Qed.
+
+(** "up to rounding": a defect D of the covariance travels through an accepted step by congruence with the
+    step's transition matrix (exact identities), and congruence is monotone for the Loewner order; this is
+    the recurrence E' = F E F^T + (new rounding) that the history harness carries as its rounding bound *)
+Theorem C09_predict_perturbation : forall (F : realFieldType) (n c : nat) (G : 'M[F]_n) (V : 'M[F]_(n, c)) (M : 'M[F]_c) (P D : 'M[F]_n),
+  step (P + D) (Predict G V M) - step P (Predict G V M) = G *m D *m G^T.
+Proof. exact predict_step_perturbation. Qed.
+
+Theorem C09_update_perturbation : forall (F : realFieldType) (n m : nat) (x : 'cV[F]_n) (z hx : 'cV[F]_m) (H : 'M[F]_(m, n)) (Q : 'M[F]_m) (P D : 'M[F]_n),
+  sym P -> sym Q -> innov_cov P H Q \in unitmx -> innov_cov (P + D) H Q \in unitmx ->
+  step (P + D) (Update (fun _ _ => false) x z hx H Q) - step P (Update (fun _ _ => false) x z hx H Q) =
+  (1%:M - kalman_gain (P + D) H Q *m H) *m D *m (1%:M - kalman_gain P H Q *m H)^T.
+Proof. exact update_step_perturbation. Qed.
+
+Theorem C09_defect_bound_propagates : forall (F : realFieldType) (n k : nat) (E D : 'M[F]_n) (T : 'M[F]_(k, n)),
+  psd (E - D) -> psd (E + D) -> psd (T *m E *m T^T - T *m D *m T^T) /\ psd (T *m E *m T^T + T *m D *m T^T).
+Proof. exact loewner_congr. Qed.
+
+(** the update the filter computes is the same matrix as the Joseph form *)
+Theorem C09_update_is_joseph_form : forall (F : realFieldType) (n m : nat) (x : 'cV[F]_n) (z hx : 'cV[F]_m) (H : 'M[F]_(m, n)) (Q : 'M[F]_m) (P : 'M[F]_n),
+  sym P -> sym Q -> innov_cov P H Q \in unitmx ->
+  step P (Update (fun _ _ => false) x z hx H Q) =
+  (1%:M - kalman_gain P H Q *m H) *m P *m (1%:M - kalman_gain P H Q *m H)^T + kalman_gain P H Q *m Q *m (kalman_gain P H Q)^T.
+Proof. exact update_is_joseph. Qed.
 
 (** the validity gate (refuse iff an eigenvalue < negative_tol * scale) never refuses a PSD covariance *)
 Theorem C09_gate_accepts_psd : forall (F : realFieldType) (n : nat) (P : 'M[F]_n) (v : 'cV[F]_n) (lam tol scale : F),
@@ -29,4 +62,10 @@ move=> x; rewrite /qf mulmx1 mxE; apply: sumr_ge0 => i _; by rewrite mxE -expr2 
 Qed.
 
 Print Assumptions C09_history_valid.
+Print Assumptions C09_cpp_history_valid.
+Print Assumptions C09_cpp_history_eq_py.
+Print Assumptions C09_predict_perturbation.
+Print Assumptions C09_update_perturbation.
+Print Assumptions C09_defect_bound_propagates.
+Print Assumptions C09_update_is_joseph_form.
 Print Assumptions C09_gate_accepts_psd.
